@@ -232,6 +232,29 @@ impl Driver {
                 self.ensure_calc(c);
                 json!({"ok": true})
             }
+            "new_calc_json" => {
+                // a calculator built from a configuration text (SmartCalc::load_from_json): the file at `path` with the values in `set`
+                // ([[json pointer, value], ...]) written over it
+                let text = match std::fs::read_to_string(s(op, "path")) { Ok(t) => t, Err(e) => return json!({"driver_error": format!("{}", e)}) };
+                let mut doc: Value = match serde_json::from_str(&text) { Ok(d) => d, Err(e) => return json!({"driver_error": format!("{}", e)}) };
+                if let Some(edits) = op.get("set").and_then(|v| v.as_array()) {
+                    for edit in edits {
+                        let pointer = edit.get(0).and_then(|v| v.as_str()).unwrap_or("");
+                        match doc.pointer_mut(pointer) {
+                            Some(slot) => *slot = edit.get(1).cloned().unwrap_or(Value::Null),
+                            None => return json!({"driver_error": format!("no {} in the configuration", pointer)})
+                        }
+                    }
+                }
+                self.calcs.remove(&c);
+                // load_from_json does not register the library's logger; do it here so that a later SmartCalc::default() can not switch
+                // debug output to stdout on behind the driver's back
+                SmartCalc::initialize();
+                log::set_max_level(log::LevelFilter::Off);
+                self.logger_off = true;
+                self.calcs.insert(c, SmartCalc::load_from_json(&doc.to_string()));
+                json!({"ok": true})
+            }
             "drop_calc" => {
                 self.calcs.remove(&c);
                 json!({"ok": true})
